@@ -128,3 +128,12 @@ theorem noPanic_ite {c : Prop} [Decidable c] {a b : Outcome α}
 
 end Outcome
 end TrackVerif
+
+namespace TrackVerif.Outcome
+
+instance : LawfulMonad Outcome := LawfulMonad.mk'
+  (id_map := fun x => by cases x <;> rfl)
+  (pure_bind := fun _ _ => rfl)
+  (bind_assoc := fun x _ _ => by cases x <;> rfl)
+
+end TrackVerif.Outcome
